@@ -96,6 +96,13 @@ CLAIMED.update({
   tech="Rocq/Coq refinement of a one-map specification for all delivery orders + differential execution of multi-node histories", ref="DESIGN.md 0, 6 (C19)"),
 })
 
+CLAIMED.update({
+ "C17": dict(
+  text="Coq theorems over models of the remote layer (router, per-address writers with their life cycle, registry of writer ids, link oracle, built on Wire.v): C17_up_exactly_once_in_order (while the connection stays up every message handed to Remote.Send is delivered exactly once with its sender, in send order per target, for all interleavings and batch formations), C17_unreachable_reported (failed dials: event published, every message handed to that attempt surfaces as a dead letter, no writer stays registered), C17_fresh_attempt_after_unreachable, C17_start_stop_idempotent / C17_stopped_never_listens, and on an interleaving model of Shutdown against the router: C17_no_blackhole (repaired order, all schedules) with C17_blackhole_pinned_refuted. Tie: real engines over loopback TCP (concurrent senders and targets, request/response, peer absent then present, Stop/Start), and stream_router/stream_writer under the deterministic scheduler with a fake dialer, whose terminal observations must lie in the set the Coq enumeration of the model produces.",
+  note="Trusted: Coq kernel + vm_compute; Remote.v hand-written; dRPC/TCP modelled as a reliable FIFO link while up; dial outcomes and connection drops are a link oracle; TLS and the 10-minute idle deadline are out of scope; the 'down' oracle is validated by correspondence only; messages queued in a writer whose established connection is lost are dropped silently by the code (C17_connection_loss_drops_silently exhibits it; the property's dead-letter clause is read as covering failed connection attempts); no axioms.",
+  tech="Rocq/Coq composition proof (router/writer FIFO + wire round trip + link) and token invariant for the shutdown race + loopback-TCP scenarios + scheduled exploration of the real router/writer", ref="DESIGN.md 0, 6 (C17)"),
+})
+
 
 def chk(pid, d):
     return {"property_id": pid, "quick_cmd": "./check run %s --tier quick" % pid,
